@@ -249,6 +249,22 @@ def write_inputs(scn, sig, d):
             open(p, "wb").write(SW.header(x.shape[0], x.shape[1], "pcm", 2, "01", 1024, rate=u["rate"]) + SW.pcm_bytes(x.T, "01"))
         lines.append("%s %s" % (u["id"], p))
     path = os.path.join(d, "wav.scp" if scn["tool"] == "kaldi" else "map.txt")
+    if relative_map(scn):
+        # the map lives in a directory of its own and names the recordings relative to the working directory (which run_case makes `d`);
+        # next to the map lie files of the same names that are other recordings: a relative name means what read_signal makes of it
+        import shutil
+
+        os.makedirs(os.path.join(d, "maps"))
+        files = [l.split(" ", 1)[1] for l in lines]
+        for k, f in enumerate(files):
+            other = files[(k + 1) % len(files)]
+            twin = os.path.join(d, "maps", os.path.basename(f))
+            if len(files) > 1 and os.path.splitext(other)[1] == os.path.splitext(f)[1]:
+                shutil.copy(other, twin)
+            else:
+                open(twin, "wb").write(b"not the recording")
+        lines = ["%s %s" % (l.split(" ", 1)[0], os.path.basename(l.split(" ", 1)[1])) for l in lines]
+        path = os.path.join(d, "maps", "map.txt")
     text = "\n".join(lines) + "\n"
     if scn["tool"] == "torch":
         # the same map as text files come: without a final newline, with blank lines, with DOS line ends
@@ -263,6 +279,10 @@ def write_inputs(scn, sig, d):
     return path
 
 
+def relative_map(scn):
+    return scn["tool"] == "torch" and scn["idx"] % 6 == 5
+
+
 def reads_as(scn, u, x):
     """what read_signal returns for this container: audio containers give (time, channels); the tool expects channels first"""
     if u["container"] in ("wav", "sph") and scn["tool"] == "torch":
@@ -270,12 +290,46 @@ def reads_as(scn, u, x):
     return x
 
 
+EXPONENT_NOTATION = {"on": False}
+
+
+def _json_text(obj):
+    """JSON text of a configuration; with EXPONENT_NOTATION on, every float is written as <digits>e<exponent> without a decimal point
+    (0.97 -> 97e-2, 25.0 -> 250e-1): the same numbers in a spelling JSON and YAML 1.2 allow"""
+    if not EXPONENT_NOTATION["on"]:
+        return json.dumps(obj)
+    floats = []
+
+    def mark(o):
+        if isinstance(o, bool) or o is None:
+            return o
+        if isinstance(o, float) and o == o and abs(o) != float("inf"):
+            r = repr(o)
+            if "e" in r or "E" in r or "." not in r:
+                return o
+            floats.append(r)
+            return "@@F%d@@" % (len(floats) - 1)
+        if isinstance(o, dict):
+            return {k: mark(v) for k, v in o.items()}
+        if isinstance(o, (list, tuple)):
+            return [mark(v) for v in o]
+        return o
+
+    text = json.dumps(mark(obj))
+    for k, r in enumerate(floats):
+        neg = r.startswith("-")
+        ip, fp = r.lstrip("-").split(".")
+        digits = (ip + fp).lstrip("0") or "0"
+        text = text.replace('"@@F%d@@"' % k, "%s%se-%d" % ("-" if neg else "", digits, len(fp)))
+    return text
+
+
 def config_arg(obj, syntax, d, name):
     if syntax == "inline":
-        return json.dumps(obj)
+        return _json_text(obj)
     if syntax == "json":
         p = os.path.join(d, name + ".json")
-        json.dump(obj, open(p, "w"))
+        open(p, "w").write(_json_text(obj))
         return p
     p = os.path.join(d, name + ".yaml")
     from ruamel.yaml import YAML
@@ -516,9 +570,16 @@ def run_case(case, rec, mon=None):
         rec.violation(dict(what=what, case=case, tool=tool, kind=scn["kind"], **kw))
 
     d = tempfile.mkdtemp(prefix="c09_")
+    here = os.getcwd()
     try:
         sig = signals_for(scn, case["seed"])
         path = write_inputs(scn, sig, d)
+        if scn["idx"] % 4 == 1:
+            EXPONENT_NOTATION["on"] = True  # the numbers of the JSON configurations written without a decimal point (97e-2)
+            rec.count("scenarios_with_exponent_notation_in_json_configurations")
+        if relative_map(scn):
+            os.chdir(d)
+            rec.count("maps_with_relative_names_and_same_named_files_beside_the_map")
         F = feature_dim(scn)
         stats_path = os.path.join(d, "stats.npy")
         if any(p.get("rfilename") for p in scn["post"]):
@@ -665,6 +726,8 @@ def run_case(case, rec, mon=None):
         rec.sample({"tool": tool, "kind": scn["kind"], "computer": scn["computer"] and scn["computer"]["name"], "pre": scn["pre"], "post": scn["post"],
                     "utts": [(u["id"], u["n"], u["channels"], u["container"], u.get("excluded")) for u in scn["utts"]], "channel": scn["channel"], "syntax": scn["syntax"]})
     finally:
+        EXPONENT_NOTATION["on"] = False
+        os.chdir(here)
         shutil.rmtree(d, ignore_errors=True)
     if own:
         monitor.report(rec)
